@@ -26,6 +26,11 @@ CLAIMED = {
     text='A calculus of how separable states are built (mixtures of product projectors with exact Gaussian-integer vectors and integer weights; closed under adding product terms, local unitaries, party permutations) is specified in TLA+; TLC simulates construction histories over dims (2,2),(2,3),(3,2),(3,3),(2,4),(2,2,2),(2,3,2) incl. computational-basis, repeated, nearly parallel and pure product terms, checking the class-closure and certificate invariants. Each constructed object is handed to every criterion of the library (is_ppt, is_generalized_ppt, reduction and swap witnesses, negativity, two-qubit concurrence/EOF/GME, symmetric and bosonic extension SDPs on a subset) and the recorded evaluations are validated by TLC against the contract: TLC itself establishes the provenance from the exact data (well-formed product mixture => SEP; Werner/isotropic with rational alpha => SEP or NPT by the exact threshold) and an evaluation event is enabled only if its result is allowed for that provenance (SEP: every verdict passes, every closed-form measure finite and zero; NPT families: PPT test fails, measures non-zero).',
     note='Exact subfamily (components in -2..2); closed-form measures count as zero when |v|<=1e-6; SDP verdicts inherit the solver tolerance; not covered: Haar-random irrational product vectors.',
     technique='TLA+ provenance calculus of separable states; TLC simulation of construction histories; TLC trace validation of recorded criterion evaluations against the contract'),
+ 'C06': dict(
+    cat='model_checking', ref='6/C06',
+    text='(i) Rays with exactly known spectra (Werner, isotropic, Bell-diagonal, diagonal states; dims (2,2),(2,3),(3,3),(2,4)): TLC computes the squared state-space and PPT boundary lengths as exact rationals from the spectra of rho and of its partial transpose (self-checked: both spectra are trace-one with equal Frobenius norm, PPT boundary inside the state space); get_density_matrix_boundary / get_ppt_boundary (single and batched) are compared with them, states at beta(1-1e-5) must pass and at beta(1+1e-5) fail the library\'s own PSD / PPT tests, and hf_interpolate_dm must land at the requested Gell-Mann distance. (ii) The README hierarchy is specified as a partial order of classes (CHA, SEP, k-(bosonic-)extendible with/without PPT, PUREB(k), PPT, DM); TLC checks it is a partial order with top DM and bottom CHA, derives from A<=B the constraint beta_A <= beta_B and validates the boundary lengths recorded for every method along random rays, and validates that every object produced by the inner models (PureBosonicExt(k), AutodiffCHAREE) at arbitrary parameter points is accepted by every outer test it must satisfy.',
+    note='SDP optima trusted to the solver tolerance (order constraints with slack 2e-5, stated direction only). CHABoundaryBagging only in thorough.',
+    technique='TLA+ partial order of the detection hierarchy + exact rational boundary model; TLC trace validation of recorded boundary lengths and inner-model verdicts; exact thresholds replayed into the code'),
  'C07': dict(
     cat='model_checking', ref='6/C07',
     text='TLC derives the elementary gate tableaux from the dense gate matrices by conjugation over Z[i], generates the complete 1- and 2-qubit Clifford groups modulo phase by closure (24 and 11520 states = every (r,S) with S in Sp(2n,F2) and every phase vector) checking the phase-exact automorphism law and composition = sequential application in every state, and enumerates every interleaving of append/query/apply/export of the CliffordCircuit state machine up to a bounded length. Every group element is replayed through the real CliffordCircuit, apply_clifford_on_pauli, clifford_array_to_F2 and the state-vector simulator (U^dagger P U); every history is executed on a real object and the recorded trace is validated by TLC against the cache-free specification, so a query that does not reflect all appended gates is rejected.',
